@@ -6,14 +6,16 @@ import os
 from vlib import core, runner
 from .base import Check
 
-EVENT_OPS = ("B ", "K ", "U ", "T ")
+EVENT_OPS = ("B ", "K ", "U ", "T ", "X ", "N ", "D ")
 
 
 class C10(Check):
     prop = "C10"
     required_theorems = ["exactly_one", "exactly_one_general", "same_split_independently", "alone_after_grace",
                          "cold_start_no_change", "no_zone_all_active", "pause_resume_once_per_change",
-                         "authority_order_irrelevant", "never_undefined", "model_trace_meets_spec"]
+                         "authority_order_irrelevant", "never_undefined", "model_trace_meets_spec",
+                         "overlapping_runs_are_one", "paused_node_is_silent", "cold_start_notification_waits",
+                         "exactly_one_does_the_work"]
     technique = ("Lean 4 proof (order/sort normal form, decision logic stated outright, invariant by induction over events of the "
                  "two-member system) over a hand-written model of Utility::SDBM, ApiListener::UpdateObjectAuthority and "
                  "ConfigObject::SetAuthority; correspondence by differential execution of two real in-process ApiListener nodes "
@@ -22,23 +24,29 @@ class C10(Check):
                   "every iteration order of the zone's members and arbitrary clocks, two members that see each other both decide and exactly "
                   "one decides 'authority' (also for any number of members that all see each other); the decision is a function of the name "
                   "and the set of connected members alone; alone after 30 s / single-member zone / no zone => authority for every name; the "
-                  "cold-start run touches nothing; Pause/Resume calls equal the authority changes over any decision sequence; and for every "
-                  "layout, object and finite sequence of (re)start / connect / disconnect / authority-run events on both members the model's "
-                  "trace satisfies the executable specification. The model is tied to the code by running two real ApiListener nodes "
+                  "cold-start run touches nothing; Pause/Resume calls equal the authority changes over any decision sequence (two overlapping "
+                  "runs count as one); an object paused on a node gets no notification sent and no check executed there (request path, "
+                  "notification timer incl. the cold-start stash, scheduler's idle set) and settled members do each piece of work exactly once; "
+                  "and for every layout, object and finite sequence of (re)start / connect / disconnect / authority-run / notification-request / "
+                  "notification-timer / due-check events on both members the model's trace satisfies the executable specification. The model is tied to the code by running two real ApiListener nodes "
                   "(real Endpoint/Zone/JsonRpcConnection objects, real UpdateObjectAuthority directly and through the authority timer "
                   "registered by ApiListener::Start, real SetAuthority/Pause/Resume on Host, Service, Notification, Downtime, Comment, "
-                  "CheckerComponent, NotificationComponent, Endpoint, Zone, ApiListener objects) on generated scenarios, diffing paused and "
-                  "the Pause()/Resume()/SetPaused counts of every object after every event on both nodes, tying Utility::SDBM on the full "
+                  "CheckerComponent, NotificationComponent, Endpoint, Zone, ApiListener objects; a real started NotificationComponent and "
+                  "CheckerComponent per node with recording notification/check commands; two real threads blocked on an object's lock for "
+                  "overlapping authority runs) on generated scenarios, diffing paused, the Pause()/Resume()/SetPaused counts, the command "
+                  "executions and the stash length of every object after every event on both nodes, tying Utility::SDBM on the full "
                   "64-bit value, and evaluating the same specification predicate on the implementation's joined trace")
     level_note = ("Trusted: Lean kernel (+ propext, Classical.choice, Quot.sound), sampled correspondence (seeded scenarios + corpus), harness/driver. "
-                  "Not modelled: that a paused endpoint neither executes checks nor sends notifications (checker/notification guards: C04, C02, C03); "
-                  "TLS/connection establishment (a connection is an attached JsonRpcConnection object); thread interleavings of concurrent authority runs.")
+                  "Not modelled: notification filters/reminders and check scheduling arithmetic (C03/C04; the harness uses forced custom notifications and "
+                  "explicitly due checks); TLS/connection establishment (a connection is an attached JsonRpcConnection object); thread interleavings "
+                  "other than two authority runs blocked on one object's lock.")
     trusted_base = [
         "modelled, not verified: only Utility::SDBM, the endpoint selection / cold-start test / index computation of "
         "ApiListener::UpdateObjectAuthority and ConfigObject::SetAuthority; std::sort is modelled by insertion sort on distinct names "
         "(any correct sort gives the same vector: sortNames_congr)",
-        "the checker's and the notification paths' `paused` guards (checkercomponent.cpp:291-317, checkable-notification.cpp:72-96, "
-        "notificationcomponent.cpp:146-166) are outside this model (C04/C02/C03)",
+        "of the notification and check paths only the `paused` / UpdatedObjectAuthority guards are modelled (checkable-notification.cpp:66-110, "
+        "notificationcomponent.cpp:138-206, checkercomponent.cpp:291-317); in a process without ApiListener the notification timer does not honour "
+        "`paused` (notificationcomponent.cpp:159 tests the local endpoint): modelled as such, the spec clause applies to nodes with an endpoint",
         "each node process joins the ApiListener's relay/sync work queues before every observation; timers run only through Timer::VerifFireDue",
     ]
     assumptions = [
@@ -80,7 +88,7 @@ class C10(Check):
                 else:
                     ops.append(l)
             elif l.startswith("O "):
-                if l.split()[1] in "eza":
+                if l.split()[1] in "ezaFK":
                     continue
                 if len(fixed) < 2:
                     fixed.append(l)
@@ -174,8 +182,10 @@ class C10(Check):
                     "peer's name, same name for objects of different types); 1..24 (40 thorough) objects of Host, Service, Notification, "
                     "Downtime, Comment, CheckerComponent, NotificationComponent, some run-everywhere, some never activated, plus the "
                     "Endpoint/Zone/ApiListener objects themselves; 4..34 (64) events: restarts (start time set or 0), symmetric and one-sided "
-                    "connects/disconnects, UpdateObjectAuthority directly and through Timer::VerifFireDue, clocks stepping around the 30 s "
-                    "window; a block of pure Utility::SDBM comparisons. evaluations = per-object verdicts of authority runs + hash "
+                    "connects/disconnects, UpdateObjectAuthority directly, through Timer::VerifFireDue and (a third of the cases) as two "
+                    "overlapping runs blocked on a random object's lock, forced notification requests (also inside the cold-start window), "
+                    "notification timer runs, due checks of random checkables, the same work on both members after link changes, clocks "
+                    "stepping around the 30 s window; a block of pure Utility::SDBM comparisons. evaluations = per-object verdicts of authority runs + hash "
                     "comparisons; a case counts as non-trivial when both members were settled with each other and node A held some of the "
                     "run-once objects and not others (counted by the Lean driver)")
         k = max(1, stats["cases"] // 2)
@@ -184,7 +194,7 @@ class C10(Check):
 
     def replay(self, path, harness, driver):
         data = json.load(open(path))
-        lines = [l for l in data.get("case", []) if l[:2] in ("C ", "O ", "H ", "B ", "K ", "U ", "T ")]
+        lines = [l for l in data.get("case", []) if l[:2] in ("C ", "O ", "H ", "B ", "K ", "U ", "T ", "X ", "N ", "D ")]
         f = self.work("replay.ops")
         with open(f, "w") as fh:
             fh.write("\n".join(runner.strip_obs(l) for l in lines) + "\n")
